@@ -62,6 +62,8 @@ MODES = {
     "valgrind": dict(build=CARGO + ["--profile", "relflags"], bin="relflags/hv", target="rel",
                      runner=["valgrind", "--quiet", "--error-exitcode=97", "--leak-check=full", "--errors-for-leak-kinds=definite", "{bin}"],
                      hv_args=["--tool", "--sample"], classify=classify_valgrind, setup=False),
+    # harness and any_vec built without default features (C19)
+    "nodefault": dict(build=CARGO + ["--profile", "relflags", "--no-default-features"], bin="relflags/hv"),
     # leaks are permitted (C06/C07)
     "miri-noleak": dict(build=MIRI_BUILD, build_tail=["--", "configs"], runner=MIRI_RUNNER, target="miri",
                         env={"RUSTFLAGS": "--cfg any_vec_verif", "MIRIFLAGS": MIRI_BASE + " -Zmiri-ignore-leaks"},
@@ -242,5 +244,26 @@ CHECKS = {
         runs=[dict(mode="rel", shards=8), dict(mode="dbg", shards=8, args=["--sub", "light"])],
         floors={"any": {"evaluations": 10000, "placements_checked": 10000}},
         assumptions=BEHAVIOUR_ASSUMPTIONS,
+    ),
+
+    "C19": dict(
+        level="exploration",
+        rule="the element / range / clone / lazy families, random histories and the SIZE/N grid restricted to Stack/StackN configurations, executed by the harness built against any_vec with and without default features; "
+             "monitors: Vec model in both builds, per-configuration digest of every operation/outcome/snapshot compared across the builds, instrumented global allocator (zero library allocations), "
+             "crate-dependency list and undefined allocator symbols of the no-default rlib, compile probes (Heap must not exist, Stack control must build); non-trivial as in C01/C02; distinct = descriptors per build",
+        runs=[dict(mode="rel", external="ext.ext_c19")],
+        floors={"any": {"evaluations": 100000, "configurations_compared": 10, "nodefault:stack_ops_watched": 50000}},
+        assumptions=BEHAVIOUR_ASSUMPTIONS + ["'compiles without the alloc crate' is a build-artifact observation (rustc -Zls, nm), complemented by the run-time allocation counter"],
+    ),
+
+    "C15": dict(
+        level="exploration",
+        rule="(1) truth table of Send/Sync/Clone for every public vector/view/handle/iterator type x 8 constraint sets x 9 backends (incl. user backends whose builder or Mem is !Send/!Sync) x 5 element classes, "
+             "printed by a running program and checked against the property's formulas (vector: both directions; handles: 'only when' direction); (2) generated hostile one-function programs (constructor x constraint set x element class, "
+             "clone/lazy_clone/element_clone without Cloneable, capacity calls and raw parts per backend, sending/sharing vectors and handles across threads), each with its control, built in one batch; "
+             "(3) the admitted cross-thread workload executed under Miri's data-race detector over several schedules; evaluations = table cells + programs + schedules; non-trivial = every row/program",
+        runs=[dict(mode="rel", external="ext.ext_c15")],
+        floors={"any": {"trait_table_cells": 2000, "hostile_programs": 200, "hostile_rejected": 50, "controls_accepted": 50, "miri_thread_schedules": 2}},
+        assumptions=["rustc's trait solver decides accept/reject for (1) and (2): the running program only prints what the compiler resolved", "Miri's data-race detector and scheduler explore a few seeds, not all interleavings"],
     ),
 }
